@@ -270,7 +270,42 @@ def construct(ctx, rng, xr, ws):
     n = int(rng.integers(1, 4))
     par = lambda lo, hi: xr.DataArray(rng.uniform(lo, hi, n), dims=["part"], coords={"part": np.arange(n)})
     hs, fp, gam, dm, dspr, dep, gw = par(0.5, 5), par(0.06, 0.3), par(1, 5), par(0, 360), par(10, 60), par(5, 100), par(0.01, 0.08)
-    which = str(rng.choice(["jonswap", "pierson_moskowitz", "tma", "gaussian", "cartwright", "asymmetric", "construct_partition"]))
+    which = str(rng.choice(["jonswap", "pierson_moskowitz", "tma", "gaussian", "cartwright", "asymmetric", "construct_partition", "conditional",
+                            "partition_and_reconstruct", "partition_and_reconstruct", "plot", "plot"]))
+    if which == "partition_and_reconstruct":
+        from wavespectra.construct import partition_and_reconstruct
+        x, backing, owner = make_x(rng, xr, backing="numpy")
+        ds = x.to_dataset(name="efth")
+        nparts = int(rng.integers(2, 4))
+        shapes = ["jonswap", "pierson_moskowitz", "gaussian"]
+        fn_ = str(rng.choice(shapes)) if rng.random() < 0.5 else [str(v) for v in rng.choice(shapes, nparts)]
+        dn_ = "cartwright" if rng.random() < 0.5 else ["cartwright"] * nparts
+        ud_ = [["alpha"], [], ["alpha", "gamma"]][int(rng.integers(3))]
+        a = {"dset": ds, "freq_name": fn_, "dir_name": dn_, "use_defaults": ud_, "signature_defaults": partition_and_reconstruct.__defaults__}
+        give = bool(rng.random() < 0.6)
+        kw = {"use_defaults": ud_} if give else {}
+        pure(rec, "construct:partition_and_reconstruct", "shapes=%s|use_defaults=%s" % ("list" if isinstance(fn_, list) else fn_, "given" if give else "default"),
+             lambda: partition_and_reconstruct(ds, parts=nparts, freq_name=fn_, dir_name=dn_, partition_method=str(rng.choice(["ptm3", "ptm1"])) if False else "ptm3", **kw), a)
+        return
+    if which == "plot":
+        import matplotlib
+        matplotlib.use("Agg")
+        import matplotlib.pyplot as plt
+        x, backing, owner = make_x(rng, xr, backing="numpy")
+        one = x.isel({d_: 0 for d_ in x.dims if d_ not in ("freq", "dir")})
+        ck = {"shrink": 0.8} if rng.random() < 0.6 else {"shrink": 0.7, "label": "caller"}
+        kw = {"kind": str(rng.choice(["contourf", "contour", "pcolormesh"])), "normalised": bool(rng.random() < 0.6), "cbar_kwargs": ck}
+        if rng.random() < 0.3:
+            kw["cbar_ticks"] = [0.1, 0.5, 1.0]
+        if kw["kind"] == "contour":
+            kw.pop("cbar_kwargs")
+            kw["add_colorbar"] = False
+        a = {"self": one, "kwargs": kw, "cbar_kwargs": ck}
+        try:
+            pure(rec, "accessor:plot", "plot|%s|normalised=%s|ticks=%s" % (kw["kind"], kw["normalised"], "cbar_ticks" in kw), lambda: one.spec.plot(**kw), a)
+        finally:
+            plt.close("all")
+        return
     use_da = rng.random() < 0.5
     fq = fda if use_da else f
     dq = tda if use_da else th
@@ -293,6 +328,11 @@ def construct(ctx, rng, xr, ws):
     elif which == "asymmetric":
         a = {"dir": dq, "freq": fq, "dm": dm, "dpm": dm + 5, "dspr": dspr, "dpspr": dspr - 2, "fm": fp * 1.1, "fp": fp}
         pure(rec, "construct:asymmetric", key, lambda: direction.asymmetric(**a), a)
+    elif which == "conditional":
+        cond = xr.DataArray(rng.random(n) < 0.5, dims=["part"], coords={"part": np.arange(n)})
+        kw = {"gamma": gam, "gw": gw}
+        a = {"freq": fq, "hs": hs, "fp": fp, "cond": cond, "kwargs": kw}
+        pure(rec, "construct:conditional", key, lambda: frequency.conditional(freq=fq, hs=hs, fp=fp, cond=cond, **kw), a)
     else:
         fk = {"freq": fq, "fp": fp, "gamma": gam, "hs": hs}
         dk = {"dir": dq, "dm": dm, "dspr": dspr}
